@@ -122,6 +122,19 @@ def run(ctx):
     esc = [x for x, _c in sm.escapes if x.exc == "InvalidSignature" and x.origin == "crypto"]
     ctx.ob("R2", "invalid-signature-propagates", site.loc(), "InvalidSignature from the crypto library %s" % ("escapes to the caller" if esc else "is swallowed"), bool(esc))
 
+    # "valid exactly when the signature verifies over that digest": the verdict "invalid" comes from
+    # the verify call and from nowhere else, and nothing but the three arguments goes into it
+    own_invalid = {}
+    for x, _c in sm.escapes:
+        if eng.prog.exc_is_sub(x.exc, "InvalidSignature") and x.origin != "crypto":
+            own_invalid.setdefault(x.chain[-1].key(), x)
+    for k, x in sorted(own_invalid.items()):
+        ctx.ob("R1", "invalid-for-another-reason|%s" % k, x.chain[-1].loc(), "verify_gpg_signature reports InvalidSignature at %s, not from the ed25519 verification of the digest: a signature that verifies can be refused" % x.chain[-1].text[:60], False)
+    from sa.effects import Effects as _Fx
+
+    amb = _Fx(eng).ambient(sm.fi)
+    ctx.ob("R1", "verdict-from-arguments-only", site.loc(), "verify_gpg_signature %s" % ("reads no clock, environment or other ambient state" if not amb else "reads ambient state (%s): the same signature is valid here and invalid there" % ", ".join(sorted({a[0] for a in amb}))[:200]), not amb)
+
     # "valid exactly when": the entry format gate must not be narrower than the OpenPGP entry
     # grammar (any hex header string of whole bytes) - C15's deciders, re-evaluated here
     from .c15 import predicate_exact, raiser_exact
